@@ -659,7 +659,7 @@ func (p *Preemptor) TryPreemption() (*AllocationResult, bool) {
 	// proceeding further to avoid choosing the same allocation which is already at the verge of replacement process for this current preemption cycle.
 	var preemptedVictims []*Allocation
 	for _, victim := range finalVictims {
-		err := victim.MarkPreempted()
+		err := victim.MarkPreemptedOnce()
 		if err != nil {
 			log.Log(log.SchedPreemption).Info("Victim is already released, so marking earlier allocations as un preempted and not moving forward further on this preemption",
 				zap.String("askApplicationID", p.ask.applicationID),
